@@ -416,3 +416,26 @@ Example C06_two_spike_ex :
   map (fun j => map (fun j' => scov [[[1]; [5]; [0]]; [[4]; [9]; [0]]] 0 j j') (seq 0 3)) (seq 0 3) = [[9; 12; 0]; [12; 16; 0]; [0; 0; 0]] /\
   claimed 1 = 0%nat /\ claimed 2 = 1%nat /\ claimed 3 = 2%nat /\ claimed 4 = 3%nat /\ claimed 9 = 3%nat.
 Proof. repeat split; vm_compute; reflexivity. Qed.
+
+(* ---------- the checkers never reject the model (completeness of the checkers relative to the model) ---------- *)
+(* Together with C06_from_sparse_last_write and C06_get_dense_closed: on every input inside the reading the
+   output of the model passes fs_spec_b / dense_spec_b -- also where a row names a channel twice --, so a
+   clause 21 / 24 / 25 alarm can only come from an implementation output that differs from the model's. *)
+Theorem C06_checker_accepts_model : forall (A : Type) (zero : A) (aeqb : A -> A -> bool),
+  (forall a, aeqb a a = true) -> forall data cols chans,
+  length data = length cols -> fs_spec_b zero aeqb data cols chans (dense zero data cols chans) = true.
+Proof. exact (@fs_spec_b_accepts_dense). Qed.
+Print Assumptions C06_checker_accepts_model.
+
+Theorem C06_dense_checker_accepts_model : forall (A : Type) (zero nanc : A) (aeqb : A -> A -> bool),
+  (forall a, aeqb a a = true) -> forall (st : @store A) n_loc stpl ids chans,
+  dense_spec_b zero aeqb st n_loc stpl ids chans (map (closed_row zero nanc st n_loc stpl chans) ids) = true.
+Proof. exact (@dense_spec_b_accepts_closed). Qed.
+Print Assumptions C06_dense_checker_accepts_model.
+
+Example C06_checker_accepts_ex :
+  fs_spec_b 0 Z.eqb [[10; 11; 12]] [[4; 4; 1]] [4; 1] [[11; 12]] = true /\
+  fs_spec_b 0 Z.eqb [[10; 11; 12]] [[4; 4; 1]] [4; 1] [[12; 11]] = false /\
+  dense_spec_b 0 Z.eqb ex_store 2 [0; 0; 1; 1; 0; 1; 0; 1] [7; 3; 4] [0; 1; 2; 3] [[0; 0; 30; 31]; [0; 0; 99; 99]; [10; 11; 0; 0]] = true /\
+  dense_spec_b 0 Z.eqb ex_store 2 [0; 0; 1; 1; 0; 1; 0; 1] [7; 3; 4] [0; 1; 2; 3] [[10; 11; 0; 0]; [0; 0; 99; 99]; [0; 0; 30; 31]] = false.
+Proof. repeat split; vm_compute; reflexivity. Qed.
